@@ -32,6 +32,10 @@ func (t Triangle) Normal() Vec {
 // IsDegenerate returns true if all of triangle's vertices are
 // within tol distance of its longest side.
 func (t Triangle) IsDegenerate(tol float64) bool {
+	if t[0] == t[1] && t[1] == t[2] {
+		// All vertices coincide: there is no longest side to measure from.
+		return tol >= 0
+	}
 	longIdx := t.longIdx()
 	// calculate vertex distance from longest side
 	ln := line{t[longIdx], t[(longIdx+1)%3]}
